@@ -406,4 +406,86 @@ theorem prefix_range (p k : Bytes) : hasPfx p k = (!blt k p && belowBound (upper
   rw [Bool.eq_iff_iff, prefix_range_iff]
   simp
 
+/-! ## the loop of `CopyBatched` as written commits exactly `chunks` -/
+
+theorem loopBatches_zero (cur : List Entry) (cnt : Nat) (es : List Entry) :
+    loopBatches 0 cur cnt es = [cur ++ es] := by
+  induction es generalizing cur cnt with
+  | nil => simp [loopBatches]
+  | cons e rest ih => simp [loopBatches, ih]
+
+/-- With enough fuel the fuel does not matter. -/
+theorem chunkFuel_fuel (n : Nat) (hn : 0 < n) : ∀ (f1 f2 : Nat) (es : List Entry), es.length ≤ f1 → es.length ≤ f2 →
+    chunkFuel f1 n es = chunkFuel f2 n es
+  | 0, 0, _, _, _ => rfl
+  | 0, f2 + 1, es, h1, _ => by
+    have : es = [] := List.length_eq_zero_iff.mp (Nat.le_zero.mp h1)
+    subst this
+    have : ¬ n ≤ 0 := by omega
+    simp [chunkFuel, this]
+  | f1 + 1, 0, es, _, h2 => by
+    have : es = [] := List.length_eq_zero_iff.mp (Nat.le_zero.mp h2)
+    subst this
+    have : ¬ n ≤ 0 := by omega
+    simp [chunkFuel, this]
+  | f1 + 1, f2 + 1, es, h1, h2 => by
+    simp only [chunkFuel]
+    by_cases h : n ≤ es.length
+    · simp only [h, if_true]
+      rw [chunkFuel_fuel n hn f1 f2 (es.drop n) (by simp only [List.length_drop]; omega)
+        (by simp only [List.length_drop]; omega)]
+    · simp [h]
+
+theorem chunks_unfold (n : Nat) (hn : 0 < n) (es : List Entry) :
+    chunks n es = if n ≤ es.length then es.take n :: chunks n (es.drop n) else [es] := by
+  have hn0 : n ≠ 0 := by omega
+  simp only [chunks, hn0, if_false]
+  cases hl : es.length with
+  | zero =>
+    have : ¬ n ≤ 0 := by omega
+    simp [chunkFuel, this]
+  | succ f =>
+    simp only [chunkFuel, hl]
+    by_cases h : n ≤ f + 1
+    · simp only [h, if_true]
+      rw [chunkFuel_fuel n hn f (es.drop n).length (es.drop n) (by simp only [List.length_drop]; omega) (Nat.le_refl _)]
+    · simp [h]
+
+theorem loopBatches_pos (n : Nat) (hn : 0 < n) (es : List Entry) : ∀ (cur : List Entry) (cnt : Nat), cnt < n →
+    loopBatches n cur cnt es =
+      if n ≤ cnt + es.length then (cur ++ es.take (n - cnt)) :: chunks n (es.drop (n - cnt)) else [cur ++ es] := by
+  have hn0 : (n != 0) = true := by simpa using (show n ≠ 0 by omega)
+  induction es with
+  | nil =>
+    intro cur cnt hc
+    have : ¬ n ≤ cnt := by omega
+    simp [loopBatches, this]
+  | cons e rest ih =>
+    intro cur cnt hc
+    by_cases hb : cnt + 1 ≥ n
+    · have hd : (decide (cnt + 1 ≥ n)) = true := by simpa using hb
+      have h1 : n - cnt = 1 := by omega
+      have h2 : n ≤ cnt + (e :: rest).length := by simp only [List.length_cons]; omega
+      simp only [loopBatches, hn0, hd, Bool.and_self, if_true, h2, h1, List.take_succ_cons, List.take_zero,
+        List.drop_succ_cons, List.drop_zero]
+      rw [ih [] 0 hn, chunks_unfold n hn rest]
+      simp
+    · have hd : (decide (cnt + 1 ≥ n)) = false := by simpa using hb
+      have hk : n - cnt = (n - (cnt + 1)) + 1 := by omega
+      simp only [loopBatches, hn0, hd, Bool.and_false, Bool.false_eq_true, if_false]
+      rw [ih (cur ++ [e]) (cnt + 1) (by omega), hk]
+      simp only [List.length_cons, List.take_succ_cons, List.drop_succ_cons, List.append_assoc, List.singleton_append]
+      by_cases h : n ≤ cnt + 1 + rest.length
+      · have h' : n ≤ cnt + (rest.length + 1) := by omega
+        simp [h, h']
+      · have h' : ¬ n ≤ cnt + (rest.length + 1) := by omega
+        simp [h, h']
+
+theorem loopBatches_eq_chunks (n : Nat) (es : List Entry) : loopBatches n [] 0 es = chunks n es := by
+  by_cases hn : n = 0
+  · subst hn; simp [loopBatches_zero, chunks]
+  · have hp : 0 < n := by omega
+    rw [loopBatches_pos n hp es [] 0 hp, chunks_unfold n hp es]
+    simp
+
 end Hive.KV
